@@ -7,14 +7,20 @@
    A share `IllShare` of the calls is made ill-formed on purpose (rejected-call actions of C14a).
    Run with -simulate; every behaviour reaching MaxLen is printed as one JSON program. *)
 EXTENDS Integers, Sequences, TLC, Json, FiniteSets, SequencesExt
-CONSTANTS MaxLen, Slots, MaxDim, OpSet, IllShare, CoefMax, Recipe
+CONSTANTS MaxLen, Slots, MaxDim, OpSet, IllShare, CoefMax, Recipe, Shape
 Coef == (-CoefMax)..CoefMax
 RE(S) == RandomElement(S)
 \* NOTE on randomness: TLC re-evaluates a LET-bound or lazily represented expression at every use, so
 \* every random draw is bound exactly once with  \E x \in {draw}  or  CHOOSE x \in {draw} : TRUE  and
 \* random vectors are materialised with SubSeq.
 Mat(s) == SubSeq(s, 1, Len(s))
-Vec(n) == Mat([i \in 1..n |-> RE(Coef)])
+\* Shape = "poly": arbitrary coefficient vectors.  Otherwise the same histories drive boxes ("box"), bounded-difference shapes
+\* ("bds") or octagons ("oct"): three vectors in four are then template directions of that domain (a*x_i; a*x_i - a*x_j;
+\* a*x_i +- a*x_j), so that most constraints and expressions are representable, and one in four is arbitrary.
+GVec(n) == Mat([i \in 1..n |-> RE(Coef)])
+ShapeVec(n) == LET mk(i, j, a, sg) == [k \in 1..n |-> IF k = i THEN a ELSE IF k = j /\ Shape # "box" THEN (IF Shape = "bds" THEN -a ELSE sg * a) ELSE 0]
+               IN CHOOSE v \in {mk(i, j, a, sg) : i \in {RE(1..n)}, j \in {RE(1..n)}, a \in {RE(Coef \ {0})}, sg \in {RE({-1, 1})}} : TRUE
+Vec(n) == IF Shape = "poly" \/ n = 0 \/ RE(1..4) = 1 THEN GVec(n) ELSE Mat(ShapeVec(n))
 SetToSeqL(S) == SetToSortSeq(S, <)
 Dot(u, v) == LET RECURSIVE D(_)
                  D(i) == IF i = 0 THEN 0 ELSE u[i] * v[i] + D(i-1)
@@ -70,6 +76,7 @@ DimOther == {"unconstrain", "unconstrain_set", "map_dims"}
 AllOps == CtorOps \cup UnObs \cup VarObs \cup ExprObs \cup BinObs \cup ConOps \cup ConsOps \cup GenOps \cup GensOps \cup CgOps \cup CgsOps
           \cup BinMut \cup PoolOps \cup UnMut \cup ImgOps \cup LhsOps \cup DimUp \cup DimDown \cup DimOther
 DriverOps == {"min_constraints", "min_generators", "constraints", "generators", "add_generator", "add_constraint", "is_empty", "contains", "equals", "add_generators", "add_constraints"}
+ShapeDrivers == {"min_constraints", "constraints", "add_constraint", "refine_with_constraint", "is_empty", "contains", "equals", "refine_with_constraints", "is_universe"}
 OpOK(op) == IF op \in CtorOps THEN TRUE ELSE AliveS # {}
 (* Recipe mode (state x operation coverage, in the style of one test per transition): slot 1 and slot 2 are built with the
    same dimension and topology, then nd in 0..3 state-driver calls move slot 1's lazy representation, then ONE target
@@ -84,18 +91,18 @@ RecipeTargets == (AllOps \cap OpSet) \ (CtorOps \cup {"destroy", "dumpload", "co
 RecipeOp == LET L == Len(prog) IN
             IF L = 0 THEN RE({"from_cs", "from_gs", "from_cs"})
             ELSE IF L = 1 THEN RE({"from_cs", "from_gs", "new"})
-            ELSE IF L < 2 + nd THEN (IF rk = "copy" /\ RE(1..4) = 1 THEN "H79_widening" ELSE RE(DriverOps))
-            ELSE IF rk = "op" THEN (IF L = 2 + nd THEN RE(RecipeTargets) ELSE IF L = 3 + nd THEN "min_constraints" ELSE "min_generators")
+            ELSE IF L < 2 + nd THEN (IF rk = "copy" /\ RE(1..4) = 1 /\ Shape = "poly" THEN "H79_widening" ELSE RE(IF Shape = "poly" THEN DriverOps ELSE ShapeDrivers))
+            ELSE IF rk = "op" THEN (IF L = 2 + nd THEN RE(RecipeTargets) ELSE IF L = 3 + nd THEN "min_constraints" ELSE IF Shape = "poly" THEN "min_generators" ELSE "is_empty")
             ELSE IF L = 2 + nd THEN RE({"assign", "assign", "copy_from", "swap"})
             ELSE IF L = 3 + nd THEN RE(RecipeTargets \cap (ConOps \cup ConsOps \cup GenOps \cup GensOps \cup BinMut \cup UnMut \cup ImgOps \cup DimUp \cup DimDown \cup DimOther))
-            ELSE IF L = 4 + nd THEN "min_constraints" ELSE "min_generators"
+            ELSE IF L = 4 + nd THEN "min_constraints" ELSE IF Shape = "poly" THEN "min_generators" ELSE "is_empty"
 ChooseOp == /\ phase = "op" /\ Len(prog) < (IF Recipe THEN RecipeLen ELSE MaxLen)
             /\ LET ok == {o \in (AllOps \cap OpSet) : OpOK(o)} IN
                \* one call in three is a "state driver" (an observer or a small mutator that moves the lazy representation:
                \* minimisation, pending rows, sortedness), so that every operation is met in many internal states
                \E op \in {IF Recipe THEN RecipeOp
                           ELSE IF AliveS = {} \/ (Cardinality(AliveS) < Cardinality(Slots) /\ RE(1..3) = 1) THEN RE(CtorOps \cap OpSet)
-                          ELSE IF RE(1..3) = 1 /\ (DriverOps \cap ok) # {} THEN RE(DriverOps \cap ok) ELSE RE(ok)} : cur' = op
+                          ELSE IF RE(1..3) = 1 /\ (DriverOps \cap ok) # {} THEN RE((IF Shape = "poly" THEN DriverOps ELSE ShapeDrivers) \cap ok) ELSE RE(ok)} : cur' = op
             /\ phase' = "args" /\ UNCHANGED <<prog, dim, topo, anchor, focus, nd, rk>>
 SetDim(s, n, t) == dim' = [dim EXCEPT ![s] = n] /\ topo' = [topo EXCEPT ![s] = t] /\ UNCHANGED anchor
 ConOf(kinds, a, n) == CHOOSE c \in {[k |-> k, v |-> IF RE(1..5) <= 4 THEN Friendly(a, n, k) ELSE AnyCon(n)] : k \in {RE(kinds)}} : TRUE
@@ -118,9 +125,9 @@ Args ==
            \E n \in {IF Recipe /\ Len(prog) = 1 THEN dim[1] ELSE IF Recipe THEN RE(1..MaxDim) ELSE RE(0..MaxDim)} :
            \E t \in {IF Recipe /\ Len(prog) = 1 THEN topo[1] ELSE RE({"C", "NNC"})} : \E cnt \in {RE(1..4)} :
              /\ \/ cur = "new" /\ Emit([D0 EXCEPT !.op = cur, !.dst = s, !.n = n, !.topo = t, !.k = RE({"universe", "universe", "empty"})])
-                \/ cur = "from_cs" /\ n > 0 /\ Emit([D0 EXCEPT !.op = cur, !.dst = s, !.n = n, !.topo = t,
+                \/ cur = "from_cs" /\ n > 0 /\ Emit([D0 EXCEPT !.op = cur, !.dst = s, !.n = n, !.topo = t, !.var = RE(0..6),
                         !.cs = RandSeq(cnt, LAMBDA i : ConOf(IF ill THEN {"ge", "eq", "gt"} ELSE ConKinds(t), anchor[s], n))])
-                \/ cur = "from_gs" /\ Emit([D0 EXCEPT !.op = cur, !.dst = s, !.n = n, !.topo = t,
+                \/ cur = "from_gs" /\ Emit([D0 EXCEPT !.op = cur, !.dst = s, !.n = n, !.topo = t, !.var = RE(0..6),
                         !.gs = (IF ill THEN <<>> ELSE <<[k |-> "point", v |-> Mat(<<1>> \o [i \in 1..n |-> anchor[s][i]])]>>) \o
                                RandSeq(cnt - 1, LAMBDA i : IF n = 0 THEN [k |-> "point", v |-> <<1>>] ELSE GenOf(IF ill THEN {"point", "cpoint", "ray", "line"} ELSE GenKinds(t), anchor[s], n))])
                 \/ cur = "from_cgs" /\ n > 0 /\ Emit([D0 EXCEPT !.op = cur, !.dst = s, !.n = n, !.topo = t, !.mod = RE(1..3),
@@ -140,7 +147,7 @@ Args ==
      \/ /\ cur \in ConOps
         /\ \E s \in {s0} : \E n \in {IF ill /\ RE(1..2) = 1 THEN dim[s] + 1 ELSE dim[s]} :
            \E c \in {IF ill THEN RawCon(n) ELSE ConFor(s, n)} :
-             Emit([D0 EXCEPT !.op = cur, !.dst = s, !.n = n, !.topo = topo[s], !.k = c.k, !.v = c.v]) /\ Keep
+             Emit([D0 EXCEPT !.op = cur, !.dst = s, !.n = n, !.topo = topo[s], !.k = c.k, !.v = c.v, !.var = RE(0..1)]) /\ Keep
      \/ /\ cur \in ConsOps
         /\ \E s \in {s0} : \E n \in {IF ill /\ RE(1..3) = 1 THEN dim[s] + 1 ELSE dim[s]} : \E cnt \in {IF ill THEN RE(1..4) ELSE RE(0..3)} :
              Emit([D0 EXCEPT !.op = cur, !.dst = s, !.n = n, !.topo = topo[s], !.var = RE(0..1),
@@ -210,7 +217,7 @@ Args ==
                   /\ dim' = [dim EXCEPT ![s] = dim[t]] /\ UNCHANGED topo /\ anchor' = [anchor EXCEPT ![s] = anchor[t]]
              \/ cur = "swap" /\ Alive(s) /\ topo[s] = topo[t] /\ Emit([D0 EXCEPT !.op = cur, !.dst = s, !.src = t, !.n = dim[s], !.topo = topo[s], !.var = RE(0..1)])
                   /\ dim' = [dim EXCEPT ![s] = dim[t], ![t] = dim[s]] /\ UNCHANGED topo /\ anchor' = [anchor EXCEPT ![s] = anchor[t], ![t] = anchor[s]]
-             \/ cur = "conv_topo" /\ s # t /\ Emit([D0 EXCEPT !.op = cur, !.dst = s, !.src = t, !.n = dim[t], !.topo = topo[t]])
+             \/ cur = "conv_topo" /\ s # t /\ Emit([D0 EXCEPT !.op = cur, !.dst = s, !.src = t, !.n = dim[t], !.topo = topo[t], !.var = RE(0..5), !.den = RE(1..3)])
                   /\ dim' = [dim EXCEPT ![s] = dim[t]] /\ topo' = [topo EXCEPT ![s] = IF topo[t] = "C" THEN "NNC" ELSE "C"] /\ anchor' = [anchor EXCEPT ![s] = anchor[t]]
              \/ cur = "rebuild" /\ Emit([D0 EXCEPT !.op = cur, !.dst = s, !.src = t, !.n = dim[t], !.topo = topo[t], !.var = RE(1..5)])
                   /\ dim' = [dim EXCEPT ![s] = dim[t]] /\ topo' = [topo EXCEPT ![s] = topo[t]] /\ anchor' = [anchor EXCEPT ![s] = anchor[t]]
